@@ -27,6 +27,27 @@ def main():
     from harness import observe
     if spec.get("cwd"):
         os.chdir(spec["cwd"])
+    decoy = None
+    if spec.get("decoys"):
+        # a working directory that holds files named like the package's own data files, with different content: a run that
+        # does not name them must not read them
+        import propka
+        decoy = tempfile.TemporaryDirectory(prefix="c03cwd")
+        pkg = os.path.dirname(os.path.abspath(propka.__file__))
+        for fn in os.listdir(pkg):
+            src = os.path.join(pkg, fn)
+            if fn.endswith((".py", ".pyc")) or not os.path.isfile(src):
+                continue
+            if fn.endswith(".cfg"):
+                import re
+                txt = re.sub(r"^(model_pkas\s+(?:ASP|HIS|LYS)\s+)(\d+)", lambda m: m.group(1) + str(int(m.group(2)) + 1), open(src).read(), flags=re.M)
+                txt = re.sub(r"^(sidechain_interaction\s+)\S+", r"\g<1>0.55", txt, flags=re.M)
+            elif fn.endswith(".json"):
+                txt = "{}"
+            else:
+                txt = ""
+            open(os.path.join(decoy.name, fn), "w").write(txt)
+        os.chdir(decoy.name)
     out = []
     for call in spec["calls"]:
         if call.get("mode") == "path":
@@ -38,6 +59,9 @@ def main():
             o = observe.run(call["pdb"], call["args"])
         out.append(digest(o))
     del junk, junk2
+    if decoy is not None:
+        os.chdir("/")
+        decoy.cleanup()
     print(json.dumps(out))
 
 
